@@ -2,11 +2,13 @@
    Model/Slots.v mirrors util/fenwick_tree.go, slot_offsetter.go, sequenced_slots.go and slot_sequencer.go and is composed
    with the ByteBuffer model (whose save-area behaviour is C09's refinement theorem) and the regenerated OffsetSlot.
    PARTIAL: the theorems below cover the sorted container (Push/Pop against a finite map, duplicates and the slot limit
-   without disturbing stored entries), OffsetSlot, and the Fenwick tree's unit responses for every size <= 64.  The
+   without disturbing stored entries), OffsetSlot, and the Fenwick tree: unit responses for every size <= 64 (kernel sweep) and,
+   through linearity of Add and SumUntil in the stored array, the prefix-sum contract for every history of in-range Adds
+   with arbitrary deltas on those sizes.  The
    end-to-end statement "the slot popped for a number addresses the bytes saved under it, whatever was discarded before"
    is carried for all explored histories by the correspondence run and the extracted ParkedMap oracle; its Coq proof
-   (virtual-coordinate invariant + Fenwick linearity for all sizes) is not done. *)
-From Sonic Require Import Base.Prelude Gen.Slot Model.Slots Proofs.SlotsProofs.
+   (virtual-coordinate invariant + the Fenwick index walk for sizes above 64) is not done. *)
+From Sonic Require Import Base.Prelude Gen.Slot Model.Slots Proofs.SlotsProofs Proofs.FenwickLinear.
 Local Open Scope Z_scope.
 
 Theorem C20_container_push : forall maxSlots l seq slot l' ok err,
@@ -42,6 +44,24 @@ Theorem C20_fenwick_unit_response_partial : forall n i q,
   0 <= n <= 64 -> 0 <= i < n -> 0 <= q < n -> fw_unit_ok n i q = true.
 Proof. exact fw_unit_response. Qed.
 Print Assumptions C20_fenwick_unit_response_partial.
+
+(* Every history of in-range Adds with arbitrary deltas, every tree size up to 64: nothing panics, and SumUntil q is
+   the sum of the deltas added at indices <= q.  (_partial: the size bound comes from the unit-response sweep; the
+   linearity argument itself has no bound.) *)
+Theorem C20_fenwick_prefix_sums_partial : forall n adds,
+  0 <= n <= 64 -> Forall (fun p => 0 <= fst p < n) adds ->
+  exists d, fw_adds (fw_new n) adds = Ok d /\ length d = Z.to_nat n /\
+            forall q, 0 <= q < n -> fw_sum_until d q = Ok (prefix_of adds q).
+Proof. exact fw_prefix_sums. Qed.
+Print Assumptions C20_fenwick_prefix_sums_partial.
+
+Example C20_fenwick_history_demo :
+  match fw_adds (fw_new 10) [(3, 5); (0, -2); (9, 7); (3, 1); (6, 100)] with
+  | Ok d => map (fun q => fw_sum_until d q) [0; 2; 3; 5; 6; 9]
+  | Panic => []
+  end = [Ok (-2); Ok (-2); Ok 4; Ok 4; Ok 104; Ok 111]
+  /\ map (prefix_of [(3, 5); (0, -2); (9, 7); (3, 1); (6, 100)]) [0; 2; 3; 5; 6; 9] = [-2; -2; 4; 4; 104; 111].
+Proof. vm_compute. split; reflexivity. Qed.
 
 (* Non-vacuity: five packets parked out of order and popped in another order; every pop returns the bytes saved under
    its number and the save area ends empty. *)
